@@ -54,6 +54,10 @@ def canonical_fields(rng, quick):
     out.append(("typedef-underscore", "default", dict(T("string"), gotype="My_Str", ann="My_Str")))
     out.append(("enum-underscore", "default", dict(T("enum"), gotype="My_Enum", ann="My_Enum")))
     out.append(("list-enum-underscore", "default", L(dict(T("enum"), gotype="My_Enum", ann="My_Enum"))))
+    # a struct type reachable through a set only; double keys
+    out.append(("set-pstruct-only", "default", SET(ST("LeafSetOnly", True))))
+    out.append(("map-double-string", "default", M(T("double"), T("string"))))
+    out.append(("map-double-pstruct", "optional", M(T("double"), ST("Leaf", True))))
     out.append(("opt-i32", "optional", T("i32", True)))
     out.append(("opt-string", "optional", T("string", True)))
     out.append(("req-i64", "required", T("i64")))
@@ -167,6 +171,7 @@ EXTRA_MEMBERS = ["Untagged int32", "unexported int32 `frugal:\"900,default,i32\"
 def build_universe(rng, quick):
     defs = U.leaf_structs()
     defs["Leaf_u"] = struct([field(1, "default", T("i32")), field(2, "optional", T("string", True))])
+    defs["LeafSetOnly"] = struct([field(1, "default", T("i32")), field(2, "default", T("string"))])
     entries = {}     # struct name -> canonical sorted fields
     cf = canonical_fields(rng, quick)
     n = 0
